@@ -158,7 +158,11 @@ class Regex(RegexReader):
         s_initial = self._set_and_get_initial_state_in_enfa()
         s_final = self._set_and_get_final_state_in_enfa()
         self._process_to_enfa(s_initial, s_final)
-        return self._enfa
+        # The automaton now belongs to the caller, it must not be the one
+        # used by accepts
+        enfa = self._enfa
+        self._enfa = None
+        return enfa
 
     def _set_and_get_final_state_in_enfa(self):
         s_final = self._get_next_state_enfa()
@@ -251,6 +255,8 @@ class Regex(RegexReader):
         self.sons[index_son]._enfa = self._enfa
         self.sons[index_son]._process_to_enfa(s_from, s_to)
         self._counter = self.sons[index_son]._counter
+        # The son only lent its construction, this is not its automaton
+        self.sons[index_son]._enfa = None
 
     def get_tree_str(self, depth: int = 0) -> str:
         """ Get a string representation of the tree behind the regex
